@@ -19,7 +19,7 @@ import common
 from common import Case, Failure, f2x, x2f
 
 PID = 'C15'
-LEAN_TARGETS = ['Nitime.Props.C15']
+LEAN_TARGETS = ['Nitime.Props.C15', 'Nitime.Props.C15Opts', 'Nitime.Props.C19Rows']
 RULE = ('inputs: units s/ms/us x intervals {whole, decimal, known re-quantising (0.81327 s, 2.3 ms, 1.7 us ...), random} x '
         'non-zero t0 x 1-/2-/3-d data where the analyzer admits it; every TimeSeries-valued analyzer output + spectral/'
         'coherence/correlation/SNR/Granger/event-related array outputs; generated NIfTI volumes (single/multiple files, '
@@ -27,11 +27,17 @@ RULE = ('inputs: units s/ms/us x intervals {whole, decimal, known re-quantising 
         'refused options, verbose); series LENGTHS stratified in every generator (primes / 2*prime / large non-smooth 301, 999, '
         '1021 / 2-3-5-smooth / tiny-odd / other composites); HISTORIES of reads and in-place modifications on the same files '
         '(whole -> modify -> ROI / whole / multi-file; two live series; np.shares_memory); long intervals 2^40..2^50 ps; '
+        'event-related analyzer on 2-d data x 2-d event series whose rows differ in code sets / counts / placements (and through the C19 model: dtypes, '
+        'argument forms, Events with data columns); volumes stored as int16 / uint8 / float32 and with scl_slope / scl_inter; HISTORIES of reader calls with '
+        'non-default values of every option before the judged default call; non-default values of the analyzers\' optional arguments; '
         'distinct = distinct protocol line; non-trivial = t0 != 0 or unit != s or re-quantising interval')
 ASSUMPTIONS = ['numpy/scipy routines called by the analyzers are taken as the algorithm layer (data fidelity is judged against direct calls of that layer)',
                'nibabel get_fdata() is the reference content of a NIfTI file',
                'picosecond magnitudes stay below 2^53 (intervals < 2.5 h) so int64->float64 conversions in the constructor are exact']
-TRUSTED_EXTRA = ['harness/translate_c15.py (AST extraction of TimeSeries(...) call sites into Generated/SeriesCalls.lean; of get_fdata() sites, module state '
+TRUSTED_EXTRA = ['harness/translate_c15.py gen_reader_opts (AST extraction of the `<param>.get(key, literal)` sites and of module-level names written / read inside '
+                 'functions of nitime/fmri/io.py into Generated/ReaderOpts.lean); FilterAnalyzer.__init__ taken as the sink of the reader\'s options (its own fidelity is judged separately)',
+                 'the event-related DATA cases of C15 run the C19 model (Model/C19.lean) and C19\'s independent oracle (planted truth / exact rational averages)',
+                 'harness/translate_c15.py (AST extraction of TimeSeries(...) call sites into Generated/SeriesCalls.lean; of get_fdata() sites, module state '
                  'and decorators of nitime/fmri/io.py into Generated/ReaderLoads.lean; of FFT-type calls into Generated/TransformCalls.lean)',
                  'nibabel: load() returns a new image object per call and an image hands out the array it cached (the two facts the heap model of the reader encodes)',
                  'data fidelity of analyzers (output = algorithm(input.data, Fs)) is checked per run by the python oracle, not proved',
@@ -92,6 +98,14 @@ def mk_input(spec):
     data = rs.randn(*spec['shape'])
     if spec.get('pos'):
         data = np.abs(data) + 1.0
+    if spec.get('dtype'):      # a recording as stored by an acquisition system (ADC counts, single precision, big-endian)
+        dt = np.dtype(spec['dtype'])
+        if dt.kind in 'iu':
+            data = np.clip(np.round(data * 40 + 100), 0, 250).astype(dt)
+        else:
+            data = data.astype(dt)
+        if spec.get('ro'):
+            data.flags.writeable = False
     kw = dict(t0=spec['t0'], time_unit=spec['unit'])
     if 'rate' in spec:
         kw['sampling_rate'] = spec['rate']
@@ -101,11 +115,36 @@ def mk_input(spec):
 
 
 # ------------------------------------------------------------------ analyzer outputs that are series
+# event-coded series: the classic 1-d series (codes 1, 2), or one row PER CHANNEL with rows that differ in their code
+# sets, counts and placements (row 0 {1,2}, row 1 {1,3}, row 2 {2,5}), or rows with negative codes
+ROW_EVENTS = {'rows-diff': [{1: [3, 10, 18], 2: [6, 14, 20]}, {1: [4, 12], 3: [8, 16, 22]}, {2: [2, 9, 15, 21], 5: [5, 19]}],
+              'rows-neg': [{-1: [3, 10, 18], 2: [6, 14, 20]}, {1: [4, 12], -2: [8, 16, 22]}, {-3: [2, 9, 15], -1: [5, 19]}],
+              'rows-same': [{1: [3, 10, 18], 2: [6, 14, 20]}, {1: [4, 12, 21], 2: [8, 16]}, {1: [2, 9], 2: [5, 13, 19]}]}
+
+
+def event_rows(n, spec, C):
+    """-> (list of event rows as float arrays, is2d)"""
+    mode = spec.get('ev_mode') or '1d'
+    if mode == '1d' or C is None:
+        ev = np.zeros(n)
+        ev[[3, 10, 18]] = 1
+        ev[[6, 14, 20]] = 2
+        return [ev], False
+    rows = []
+    for r in range(C):
+        ev = np.zeros(n)
+        for code, pos in ROW_EVENTS[mode][r % 3].items():
+            ev[pos] = code
+        rows.append(ev)
+    return rows, True
+
+
 def events_for(T, spec):
     n = T.data.shape[-1]
-    ev = np.zeros(n)
-    ev[[3, 10, 18]] = 1
-    ev[[6, 14, 20]] = 2
+    rows, is2d = event_rows(n, spec, T.data.shape[0] if T.data.ndim == 2 else None)
+    ev = np.array(rows) if is2d else rows[0]
+    if spec.get('ev_dtype'):
+        ev = ev.astype(spec['ev_dtype'])
     return nt().TimeSeries(ev, sampling_interval=T.sampling_interval, time_unit=T.time_unit, t0=T.t0)
 
 
@@ -113,17 +152,31 @@ def mk_analyzer(name, T, spec):
     A = na()
     fs = float(T.sampling_rate)
     if name == 'FilterAnalyzer':
-        return A.FilterAnalyzer(T, lb=0.0537 * fs, ub=0.3071 * fs, filt_order=8)
+        return A.FilterAnalyzer(T, lb=0.0537 * fs, ub=0.3071 * fs, **filter_opts(spec))
     if name == 'MorletWaveletAnalyzer':
         return A.MorletWaveletAnalyzer(T, freqs=[0.2 * fs, 0.3 * fs])
     if name == 'EventRelatedAnalyzer':
+        kw = dict(offset=spec['offset'])
+        if 'cb' in spec:
+            kw['correct_baseline'] = spec['cb']
+        if 'zs' in spec:
+            kw['zscore'] = spec['zs']
         if spec.get('ev_kind') == 'Events':     # Events input: negative offsets are admitted
             dt = ps_of(T.sampling_interval)
             tms = nt().TimeArray(np.array([6, 11, 17, 23], dtype=np.int64) * dt, time_unit='ps')
             tms.convert_unit(T.time_unit)
-            return A.EventRelatedAnalyzer(T, nt().Events(tms), spec['len_et'], offset=spec['offset'])
-        return A.EventRelatedAnalyzer(T, events_for(T, spec), spec['len_et'], offset=spec['offset'])
+            E = nt().Events(tms, time_unit=T.time_unit, amp=[1.5, 2.5, 3.5, 4.5], trial=[3, 2, 1, 0]) if spec.get('ev_cols') else nt().Events(tms)
+            return A.EventRelatedAnalyzer(T, E, spec['len_et'], **kw)
+        return A.EventRelatedAnalyzer(T, events_for(T, spec), spec['len_et'], **kw)
     return getattr(A, name)(T)
+
+
+# FilterAnalyzer design options: the historical fixed set, or NON-DEFAULT values of every option
+FILTER_ALT = dict(filt_order=10, boxcar_iterations=3, gpass=2, gstop=40, iir_ftype='cheby2', fir_win='blackman')
+
+
+def filter_opts(spec):
+    return dict(FILTER_ALT) if spec.get('fopts') == 'alt' else dict(filt_order=8)
 
 
 def get_output(name, getter, T, spec):
@@ -234,8 +287,12 @@ def gen_spec(rng, dims, k, name):
         iv = rng.choice(BAD_IV[unit]) if c < 0.25 else rng.choice(GOOD_IV[unit]) if c < 0.7 else round(rng.uniform(0.01, 50.0), rng.randint(1, 4))
         t0 = rng.choice(T0S + [0.0]) if rng.random() < 0.8 else round(rng.uniform(-50, 50), 2)
     nd = dims[k % len(dims)] if k < 3 else rng.choice(dims)
+    if name == 'EventRelatedAnalyzer' and 2 in dims and k % 2 == 0:
+        nd = 2
     n = pick_len(rng, k, name)
     shape = {1: (n,), 2: (rng.choice([2, 3]), n), 3: (2, 2, n)}[nd]
+    if name == 'EventRelatedAnalyzer' and nd == 2:
+        shape = ([2, 3, 4][k % 3], n)
     spec = dict(unit=unit, iv=iv, t0=t0, shape=list(shape), seed=rng.randrange(10**6))
     if name == 'NormalizationAnalyzer':
         spec['pos'] = True
@@ -244,6 +301,22 @@ def gen_spec(rng, dims, k, name):
         spec['offset'] = rng.choice([0, 1, 2, 0, 3])   # TimeSeries events admit offsets >= 0 only
     if name == 'EventRelatedAnalyzer' and k % 5 == 4:
         spec['offset'] = 0
+    if name == 'EventRelatedAnalyzer':
+        # rows of the event series that differ (codes / counts / placements), negative codes per row, one row broadcast to
+        # all channels; baseline correction and z-score flags; recordings stored as integers / float32 / big-endian
+        spec['ev_mode'] = ['rows-diff', '1d', 'rows-neg', 'rows-diff', 'rows-same', '1d'][k % 6] if nd == 2 else '1d'
+        spec['cb'] = k % 2 == 1
+        spec['zs'] = k % 3 == 1
+        spec['dtype'] = [None, 'uint8', 'float32', 'int16', '>f8', 'uint16', '>i4', None][k % 8]
+        spec['ev_dtype'] = [None, 'int16', 'float32', 'int64', 'int8'][k % 5]
+        spec['ro'] = k % 4 == 3
+    if name == 'FilterAnalyzer' and k % 2 == 1:
+        spec['fopts'] = 'alt'
+    if name != 'EventRelatedAnalyzer' and k >= 3 and k % 2 == 0:
+        # recordings that are not float64 (the reference is the algorithm layer on the SAME stored samples; unsigned types are
+        # left to the event-related analyzer: scipy's filtfilt itself wraps on them)
+        spec['dtype'] = rng.choice(['int16', 'float32', '>f8', 'int64', '>i4', 'int32'])
+        spec['ro'] = rng.random() < 0.3
     if rng.random() < 0.15 and k >= 3:
         spec.pop('iv')
         spec['rate'] = rng.choice([2.0, 10.0, 1000.0, 3.0, 1.2296039445694542, 0.5, 7.0])
@@ -267,20 +340,50 @@ def tmpdir():
     return _TMP[0]
 
 
+# how the volumes are STORED: integer / single-precision samples as they come from a scanner; `scaled-*`: floats saved
+# into an integer type, i.e. with scl_slope / scl_inter in the header (what get_fdata() has to apply)
+NIFTI_DTYPES = ['int16', 'float32', 'uint8', 'scaled-int16', 'scaled-uint8', 'int16', 'float32']
+_TRUTH = {}
+
+
+def _nifti_key(spec, idx):
+    return (spec['seed'], idx, spec['dtype'], tuple(spec['vol']), spec['lens'][idx], spec.get('ext', '.nii'))
+
+
 def nifti_data(spec, idx):
-    """the array that goes INTO file idx (kept from before writing: the reference that no reader state can touch)"""
+    """the array that goes INTO file idx (kept from before writing: the reference that no reader state can touch); for the
+    `scaled-*` kinds: stored integers x scl_slope + scl_inter, computed from the raw file content right after writing"""
+    if spec['dtype'].startswith('scaled'):
+        if _nifti_key(spec, idx) not in _TRUTH:
+            write_nifti(spec, idx)
+        return _TRUTH[_nifti_key(spec, idx)]
     rs = np.random.RandomState(spec['seed'] + idx)
     X, Y, Z = spec['vol']
     T = spec['lens'][idx]
     if spec['dtype'] == 'int16':
         return rs.randint(100, 2000, size=(X, Y, Z, T)).astype(np.int16)
+    if spec['dtype'] == 'uint8':
+        return rs.randint(3, 250, size=(X, Y, Z, T)).astype(np.uint8)
     return (rs.rand(X, Y, Z, T) * 1000 + 100).astype(np.float32)
 
 
 def write_nifti(spec, idx):
     import nibabel as nib
+    p = os.path.join(tmpdir(), 'v_%d_%d_%s%s' % (spec['seed'], idx, spec['dtype'], spec.get('ext', '.nii')))
+    if spec['dtype'].startswith('scaled'):
+        rs = np.random.RandomState(spec['seed'] + idx)
+        X, Y, Z = spec['vol']
+        img = nib.Nifti1Image(rs.rand(X, Y, Z, spec['lens'][idx]) * 1000 + 100, np.eye(4))
+        img.set_data_dtype(np.dtype(spec['dtype'].split('-')[1]))
+        img.header.set_zooms((1, 1, 1, 2.0))
+        nib.save(img, p)
+        if _nifti_key(spec, idx) not in _TRUTH:
+            im2 = nib.load(p)
+            slope, inter = im2.dataobj.slope, im2.dataobj.inter      # (the header's own fields are reset on load)
+            raw = np.asarray(im2.dataobj.get_unscaled())
+            _TRUTH[_nifti_key(spec, idx)] = raw.astype(np.float64) * (1.0 if slope is None else float(slope)) + (0.0 if inter is None else float(inter))
+        return p
     data = nifti_data(spec, idx)
-    p = os.path.join(tmpdir(), 'v_%d_%d%s' % (spec['seed'], idx, spec.get('ext', '.nii')))
     img = nib.Nifti1Image(data, np.eye(4))
     img.header.set_zooms((1, 1, 1, 2.0))
     nib.save(img, p)
@@ -343,7 +446,7 @@ def gen_nifti_spec(rng, k):
         coords.append(c)
     tr = rng.choice([None, 2.0, 1.5, 0.5, 0.81327, 'T:2000000000000:ms', 'T:1500000000000:us', 2])
     return dict(seed=rng.randrange(10**6), vol=vol, lens=lens, nroi=nroi, coords=coords, tr=tr, opt=opt,
-                dtype=rng.choice(['int16', 'float32']), as_list=(nf > 1) or rng.random() < 0.2,
+                dtype=NIFTI_DTYPES[k % len(NIFTI_DTYPES)], as_list=(nf > 1) or rng.random() < 0.2,
                 roi_tuple=rng.random() < 0.3, verbose=(k % 5 == 3))
 
 
@@ -501,7 +604,7 @@ def gen_readseq_spec(rng, k, options=False):
                     o['coords'] = [C(), C()]
                 elif o['coords'] is None and rng.random() < 0.5:
                     o['coords'] = C()
-    return dict(seed=rng.randrange(10**6), vol=vol, lens=lens, dtype=rng.choice(['int16', 'float32']), ops=ops,
+    return dict(seed=rng.randrange(10**6), vol=vol, lens=lens, dtype=NIFTI_DTYPES[(k // 6 + k) % len(NIFTI_DTYPES)], ops=ops,
                 tr=rng.choice([None, 2.0, 1.5, 0.81327, 'T:2000000000000:ms']), ext=rng.choice(['.nii', '.nii', '.nii.gz']))
 
 
@@ -653,6 +756,190 @@ def judge_readseq(c):
     return judge_readseq_spec(c.meta['spec'], case=c)
 
 
+# ------------------------------------------------------------------ HISTORIES of reader calls with different OPTIONS
+# Two (or more) calls of time_series_from_file in one process: calls with NON-DEFAULT values of every option (all design
+# options of the filter dict, another method, another band, normalize / average / TR in another form) come BEFORE the
+# judged call, which gives only `method` (and mostly the band).  Every call's FilterAnalyzer must get the documented
+# defaults overridden by THAT call's dict only, and its data must be the FilterAnalyzer output for exactly those options.
+DOC_DEFAULTS = [('lb', 0), ('ub', None), ('boxcar_iterations', 2), ('filt_order', 64), ('gpass', 1), ('gstop', 60), ('iir_ftype', 'ellip'),
+                ('fir_win', 'hamming')]
+OPT_ALTS = [dict(filt_order=16, boxcar_iterations=3, gpass=2, gstop=40, iir_ftype='cheby2', fir_win='blackman'),
+            dict(filt_order=10, boxcar_iterations=1, gpass=0.5, gstop=50, iir_ftype='butter', fir_win='hann'),
+            dict(filt_order=24, gstop=45), dict(boxcar_iterations=4, fir_win='bartlett', iir_ftype='cheby1', gpass=3)]
+METHODS = ['fir', 'fourier', 'boxcar', 'iir']
+OUT_OF = {'boxcar': 'filtered_boxcar', 'fourier': 'filtered_fourier', 'fir': 'fir', 'iir': 'iir'}
+
+
+def tok(v):
+    if v is None:
+        return 'None'
+    if isinstance(v, str):
+        return "'%s'" % v
+    if isinstance(v, (int, np.integer)) and not isinstance(v, bool):
+        return str(int(v))
+    return f2x(float(v))
+
+
+def gen_optseq_spec(rng, k):
+    m = METHODS[k % 4]
+    tr = [None, 2.0, 0.5, 'T:1500000000000:ms', 1.5][k % 5]
+    vol = [1, 2, 2]
+    n = 204 + rng.choice([0, 3, 7])        # the default filt_order=64 needs > 3*65 samples (and a steep iir design nearly as many)
+    calls = []
+    # perturbation: another method, EVERY design option at a non-default value, another band, other normalize/average/TR
+    for j in range(1 + k % 2):
+        pm = METHODS[(k + 1 + j + k // 4) % 4]
+        ptr = [1.0, 'T:3000000000000:ms', 2, None, 0.81327][(k + j) % 5]
+        fsp = 10.0**12 / tr_ps(ptr)
+        f = dict(method=pm, lb=0.11 * fsp, ub=0.23 * fsp)
+        f.update(OPT_ALTS[(k + j) % 2] if j == 0 else OPT_ALTS[2 + (k + j) % 2])
+        calls.append(dict(filter=f, normalize=[None, 'zscore', 'percent'][(k + j) % 3] if pm != 'boxcar' else 'zscore', average=(k + j) % 2 == 0, tr=ptr,
+                          coords=gen_coords(rng, vol, rng.choice([1, 2, 3]))))
+    fs = 10.0**12 / tr_ps(tr)
+    f = dict(method=m)
+    if not ((k // 4) % 2 == 1 and m in ('fir', 'fourier')):     # lb / ub themselves left at their defaults (0, None)
+        f.update(lb=0.0537 * fs, ub=0.3071 * fs)
+    calls.append(dict(filter=f, normalize=None, average=False, tr=tr, coords=gen_coords(rng, vol, rng.choice([1, 2, 4])), judged=True))
+    # and once more the other way round: a call with a FEW options, then another default call of another method
+    m2 = METHODS[(k + 2) % 4]
+    f2 = dict(method=m2, lb=0.07 * fs, ub=0.29 * fs)
+    if m2 == 'fir':
+        f2['filt_order'] = 12
+    calls.append(dict(filter=f2, normalize='zscore' if k % 2 else None, average=False, tr=tr, coords=gen_coords(rng, vol, 2), judged=True))
+    return dict(seed=rng.randrange(10**6), vol=vol, lens=[n], dtype=NIFTI_DTYPES[k % len(NIFTI_DTYPES)], calls=calls)
+
+
+def run_optseq(spec):
+    """the history on the real reader with FilterAnalyzer's constructor observed; -> per call (kwargs seen or None, result or exception)"""
+    from nitime.fmri import io
+    f0 = write_nifti(spec, 0)
+    orig = io.tsa.FilterAnalyzer
+    seen = []
+
+    class Spy(orig):
+        def __init__(self, *a, **k):
+            seen.append(dict(k))
+            orig.__init__(self, *a, **k)
+    out = []
+    io.tsa.FilterAnalyzer = Spy
+    try:
+        for c in spec['calls']:
+            del seen[:]
+            kw = dict(filter=dict(c['filter']))
+            if c['normalize'] is not None:
+                kw['normalize'] = c['normalize']
+            if c['average']:
+                kw['average'] = True
+            if c['tr'] is not None:
+                kw['TR'] = tr_obj(c['tr'])
+            try:
+                R = io.time_series_from_file(f0, np.array(c['coords']), **kw)
+            except Exception as e:  # noqa
+                R = e
+            out.append((dict(seen[0]) if seen else None, R))
+    finally:
+        io.tsa.FilterAnalyzer = orig
+    return out
+
+
+def optseq_case(spec):
+    res = run_optseq(spec)
+    parts = []
+    for kw, R in res:
+        if kw is None:
+            parts.append('none' if not isinstance(R, Exception) else 'err ' + common.err_kind(R))
+        else:
+            parts.append(','.join('%s=%s' % (k, tok(kw[k])) if k in kw else '%s=MISSING' % k for k, _ in DOC_DEFAULTS))
+    impl = 'ok ' + ' ; '.join(parts)
+    line = 'C15 readerhist ' + ';'.join(','.join('%s=%s' % (k, tok(v)) for k, v in c['filter'].items()) for c in spec['calls'])
+    return Case(line, impl, 'time_series_from_file/option-history', meta={'op': 'optseq', 'spec': spec}, nontrivial=True)
+
+
+def judge_optseq(c):
+    spec = c.meta['spec']
+    fails, seen = [], set()
+    truth = nifti_data(spec, 0).astype(np.float64)
+
+    def fail(key, what):
+        if key not in seen:
+            seen.add(key)
+            fails.append(Failure('time_series_from_file/option-history/' + key, 'history of reader calls with different options: %s [calls: %s]' % (
+                what, ' ; '.join('%s%s%s TR=%r' % (cc['filter'], ' normalize=%s' % cc['normalize'] if cc['normalize'] else '', ' average' if cc['average'] else '', cc['tr'])
+                                 for cc in spec['calls'])), {'meta': c.meta}, case=c if c.line else None))
+    res = run_optseq(spec)
+    for i, (cc, (kw, R)) in enumerate(zip(spec['calls'], res)):
+        m = cc['filter']['method']
+        want_kw = {k: cc['filter'].get(k, d) for k, d in DOC_DEFAULTS}
+        pos = 'call %d of %d (method %s%s)' % (i + 1, len(spec['calls']), m, ', options given: ' + ','.join(sorted(k for k in cc['filter'] if k != 'method')))
+        if isinstance(R, Exception):
+            fail(m + '/raises', '%s raised %r' % (pos, R))
+            continue
+        if kw is None or any(k not in kw or kw[k] != want_kw[k] for k in want_kw):
+            bad = {k: (None if kw is None else kw.get(k, 'MISSING')) for k in want_kw if kw is None or kw.get(k, 'MISSING') != want_kw[k]}
+            fail(m + '/kwargs', '%s handed FilterAnalyzer %s; expected the documented defaults overridden by this call\'s dict only: %s' % (
+                pos, bad, {k: want_kw[k] for k in bad}))
+        co = cc['coords']
+        d = np.array([[truth[co[0][q], co[1][q], co[2][q], t] for t in range(truth.shape[3])] for q in range(len(co[0]))])
+        T = nt().TimeSeries(d, sampling_interval=tr_obj(cc['tr']) if cc['tr'] is not None else 1.0)
+        F = na().FilterAnalyzer(T, **want_kw)
+        d = np.asarray(getattr(F, OUT_OF[m]).data, dtype=float)
+        if cc['normalize'] == 'percent':
+            d = (d / d.mean(-1)[..., None] - 1) * 100
+        if cc['normalize'] == 'zscore':
+            d = (d - d.mean(-1)[..., None]) / d.std(-1)[..., None]
+        if cc['average']:
+            d = d.reshape(-1, d.shape[-1]).mean(0)
+        got = np.asarray(R.data, dtype=float)
+        if got.shape != d.shape or not close(got, d, 1e-9):
+            fail(m + '/data', '%s does not return the voxel series filtered with the documented defaults overridden by this call\'s dict only '
+                 '(max abs deviation %g)' % (pos, float(np.max(np.abs(got - d))) if got.shape == d.shape else float('nan')))
+        a = axis_of(R)
+        if a['dt'] != tr_ps(cc['tr']) or a['t0'] != 0 or a['n'] != truth.shape[3]:
+            fail(m + '/axis', '%s: interval %d ps for TR %d ps, n=%d, t0=%d' % (pos, a['dt'], tr_ps(cc['tr']), a['n'], a['t0']))
+    return fails
+
+
+# ------------------------------------------------------------------ the event-related analyzer's DATA through the C19 model
+def era_specs(rng, tier):
+    """multi-row event series (rows that differ in code sets / counts / placements; one event row broadcast to many data
+    rows; negative codes per row), recordings and event series in other dtypes, optional arguments in their other forms;
+    Events objects with data columns"""
+    import c19
+    out = [sp for sp in c19.fixed_specs() if sp.get('rowcodes') or (sp.get('dtype') and sp['kind'] == 'series' and sp.get('planted'))]
+    for i in range({'quick': 8, 'thorough': 80}[tier]):
+        for what in ('fir', 'eta', 'ets', 'etdata'):
+            sp = c19.gen_series(rng, tier, what, rowcodes=(i % 4 != 3), nch=[2, 3, 2, 3][i % 4], positive=(what == 'fir' or i % 2 == 0),
+                                nonneg=(i % 4 == 1))
+            if i % 4 == 1 and what in ('eta', 'ets'):
+                sp['cb'] = True
+            if i % 2 == 1:
+                sp = c19.gen_typed(rng, sp, i // 2)
+            out.append(sp)
+        for what in ('eta', 'ets'):
+            sp = c19.gen_events(rng, tier, what, nonneg=(i % 2 == 1))
+            sp['cb'] = i % 2 == 1
+            out.append(c19.gen_typed(rng, sp, i))
+    return out
+
+
+def era_case(sp):
+    import c19
+    c = c19.mk_case(sp)
+    return Case('C15 era ' + c.line[len('C19 '):], c.impl, 'EventRelatedAnalyzer/data/' + sp['what'], cmp=c.cmp, meta={'op': 'era', 'spec': sp}, nontrivial=True)
+
+
+def judge_era(c):
+    """the C19 oracle's independent means (planted truth / direct computation from the stored values, per row with the
+    row's own codes) on the real analyzer; C19's recorded sign convention of FIR for negative codes is not C15's business"""
+    import c19
+    sp = dict(c.meta['spec'])
+    c2 = c19.mk_case(sp)
+    f = c19.check_case(c2)
+    if f is None or f.key.startswith('fir/negative-code'):
+        return []
+    return [Failure('EventRelatedAnalyzer/' + f.key, f.what, {'meta': c.meta}, case=c if c.line else None)]
+
+
 # ------------------------------------------------------------------ cases
 def cases(rng, tier, seed):
     mult = {'quick': 1, 'thorough': 12}[tier]
@@ -696,11 +983,12 @@ def cases(rng, tier, seed):
         for k in range(per):
             spec = gen_spec(rng, dims, k, name)
             if getter in ('eta', 'ets') and (k == 2 or (k >= 3 and rng.random() < 0.4)):
-                spec.update(ev_kind='Events', offset=-2 if k == 2 else rng.choice([-3, -2, -1, 0, 1]),
+                spec.update(ev_kind='Events', ev_cols=(k % 2 == 0), offset=-2 if k == 2 else rng.choice([-3, -2, -1, 0, 1]),
                             iv=GOOD_IV[spec['unit']][k % 3])
                 spec.pop('rate', None)
             if getter == 'xcorr_eta':      # the only (offset, len_et) its index arithmetic admits (C19's clause)
                 spec['offset'], spec['len_et'] = 0, 6
+                spec['zs'] = False         # (zscore=True: freq_domain_xcorr_zscored returns 5 lags for the 3 the container holds -- observed, see notes)
             impl, a_in, a_out, O, T = run_output(name, getter, spec)
             chain = chain_fn(a_in['n'], spec)
             out.append(Case(axis_line(chain, a_in, spec), impl, '%s/%s' % (name, getter), cmp=cmp_axis,
@@ -731,6 +1019,12 @@ def cases(rng, tier, seed):
     # --- histories of reads / in-place modifications on the same files
     for i in range({'quick': 12, 'thorough': 120}[tier]):
         out.append(readseq_case(gen_readseq_spec(rng, i)))
+    # --- histories of reader calls with different options (defaults of every call = the documented ones)
+    for i in range({'quick': 8, 'thorough': 64}[tier]):
+        out.append(optseq_case(gen_optseq_spec(rng, i + seed)))
+    # --- the event-related analyzer's data: rows that differ, dtypes, argument forms (through the C19 model)
+    for sp in era_specs(rng, tier):
+        out.append(era_case(sp))
     return out
 
 
@@ -898,8 +1192,9 @@ def direct_data(name, getter, T, spec, Fs):
                 y = signal.filtfilt(b, a, x2[i])
                 o[i] = y - y.mean() + x2[i].mean()
             return o.reshape(x.shape)
+        fo = filter_opts(spec)
         if getter == 'filtered_boxcar':
-            return tsa.boxcar_filter(np.copy(d), lb=lb / Fs, ub=ub / Fs, n_iterations=2)
+            return tsa.boxcar_filter(np.copy(d), lb=lb / Fs, ub=ub / Fs, n_iterations=fo.get('boxcar_iterations', 2))
         if getter == 'filtered_fourier':
             n = d.shape[-1]
             freqs = np.arange(n // 2 + 1) * Fs / n          # DFT bin frequencies j*Fs/n (odd n: the last bin is below Fs/2)
@@ -912,32 +1207,56 @@ def direct_data(name, getter, T, spec, Fs):
             return np.real(np.fft.ifft(p))
         if getter == 'iir':
             lf, uf = lb / (Fs / 2), ub / (Fs / 2)
-            b, a = signal.iirdesign([lf, uf], [max(lf - 0.1, 0.001), min(uf + 0.1, 0.999)], 1, 60, ftype='ellip')
+            b, a = signal.iirdesign([lf, uf], [max(lf - 0.1, 0.001), min(uf + 0.1, 0.999)], fo.get('gpass', 1), fo.get('gstop', 60),
+                                    ftype=fo.get('iir_ftype', 'ellip'))
             return ff(b, a, d)
         if getter == 'fir':
             lf, uf = lb / (Fs / 2), ub / (Fs / 2)
-            b1 = signal.firwin(9, uf, window='hamming')
+            order, win = fo['filt_order'], fo.get('fir_win', 'hamming')
+            b1 = signal.firwin(order + 1, uf, window=win)
             x = ff(b1, [1], d)
-            b2 = -1 * signal.firwin(9, lf, window='hamming')
-            b2[4] += 1
+            b2 = -1 * signal.firwin(order + 1, lf, window=win)
+            b2[order // 2] += 1
             return ff(b2, [1], x)
-    if name == 'EventRelatedAnalyzer' and getter in ('eta', 'ets') and spec.get('ev_kind') != 'Events':
+    if name == 'EventRelatedAnalyzer' and getter in ('eta', 'ets', 'FIR', 'et_data'):
+        # plain-index event averages per row with the ROW'S OWN sorted codes (the recording read as the exact float64
+        # embedding of what is stored); FIR = the algorithm layer (fir_design_matrix + fir) on the zero-padded rows
         n = d.shape[-1]
-        ev = np.zeros(n)
-        ev[[3, 10, 18]] = 1
-        ev[[6, 14, 20]] = 2
-        x2 = np.atleast_2d(d)
+        off, L = spec['offset'], spec['len_et']
+        x2 = np.atleast_2d(np.asarray(d, dtype=float))
+        if spec.get('ev_kind') == 'Events':
+            if getter in ('FIR', 'et_data'):
+                return None
+            groups = [[[6, 11, 17, 23]]] * x2.shape[0]
+        else:
+            rows, is2d = event_rows(n, spec, x2.shape[0] if d.ndim == 2 else None)
+            groups = []
+            for ch in range(x2.shape[0]):
+                ev = rows[ch] if is2d else rows[0]
+                groups.append([list(np.where(ev == e)[0]) for e in sorted(set(ev[ev != 0]))])
+        if getter == 'FIR':
+            res = []
+            for ch in range(x2.shape[0]):
+                ev = (rows[ch] if is2d else rows[0])
+                pe = np.hstack([np.zeros(off), ev, np.zeros(L)])
+                pd = np.hstack([np.zeros(off), x2[ch], np.zeros(L)])
+                h = tsa.fir(pd, tsu.fir_design_matrix(np.roll(pe, off), L))
+                res.append(np.reshape(h, (len(groups[ch]), L)))
+            return np.array(res).squeeze()
+        if getter == 'et_data':      # get_output hands back the first channel's first code
+            return np.array([[x2[0][i + off + k] for k in range(L)] for i in groups[0][0]])
         res = []
         for ch in range(x2.shape[0]):
-            rows = []
-            for e in (1, 2):
-                idx = np.where(ev == e)[0]
-                seg = np.array([[x2[ch][i + spec['offset'] + k] for k in range(spec['len_et'])] for i in idx])
+            out_rows = []
+            for idx in groups[ch]:
+                seg = np.array([[x2[ch][i + off + k] for k in range(L)] for i in idx])
+                if spec.get('cb'):
+                    seg = seg - seg[:, :1]
                 if getter == 'eta':
-                    rows.append(seg.mean(0))
+                    out_rows.append(seg.mean(0))
                 else:
-                    rows.append(seg.std(0, ddof=1) / np.sqrt(len(idx)))
-            res.append(rows)
+                    out_rows.append(seg.std(0, ddof=1) / np.sqrt(len(idx)))
+            res.append(out_rows)
         return np.array(res).squeeze()
     return None
 
@@ -981,7 +1300,7 @@ def judge_output(c):
                 n - 1, tm[n - 1], list(np.where(tm == 0)[0])))
         # data: the sample at the true zero lag is the plain inner product
         if getter == 'xcorr':
-            d = np.asarray(T.data)
+            d = np.asarray(T.data, dtype=float)      # (an inner product formed in int16 would wrap: the reference works on the exact embedding)
             want = np.array([[np.dot(d[i], d[j]) for j in range(d.shape[0])] for i in range(d.shape[0])])
             got = np.asarray(O.data)[..., n - 1]
             iu = np.triu_indices(d.shape[0])
@@ -994,7 +1313,7 @@ def judge_output(c):
             fail('n', 'event-locked output has %d samples, expected len_et = %d' % (a['n'], spec['len_et']))
     if kind in ('same', 'offset') and O is not None:
         want = direct_data(name, getter, T, spec, Fs)
-        if want is not None and not close(np.asarray(O.data), want, 1e-8):
+        if want is not None and not close(np.asarray(O.data), want, 2e-5 if spec.get('dtype') == 'float32' and name != 'EventRelatedAnalyzer' else 1e-8):
             fail('data', 'output data differ from the direct algorithm call on input.data with Fs=%r' % Fs)
     return fails
 
@@ -1056,7 +1375,7 @@ def spectral_experiments(spec):
     attempt('SpectralAnalyzer', 'cpsd', lambda: chk('SpectralAnalyzer', 'cpsd', S.cpsd, tsa.get_spectra(d, method={'this_method': 'welch', 'Fs': Fs}), 'value'))
     attempt('SpectralAnalyzer', 'periodogram', lambda: chk('SpectralAnalyzer', 'periodogram', S.periodogram, tsa.periodogram(d, Fs=Fs), 'value'))
     attempt('SpectralAnalyzer', 'spectrum_fourier', lambda: chk('SpectralAnalyzer', 'spectrum_fourier', S.spectrum_fourier,
-                                                                (tsu.get_freqs(Fs, d.shape[-1]), np.fft.fft(d)[..., :len(tsu.get_freqs(Fs, d.shape[-1]))]), 'value'))
+                                                                (tsu.get_freqs(Fs, d.shape[-1]), __import__('scipy.fftpack').fftpack.fft(d)[..., :len(tsu.get_freqs(Fs, d.shape[-1]))]), 'value'))
 
     def mt():
         f, p = S.spectrum_multi_taper
@@ -1086,6 +1405,55 @@ def spectral_experiments(spec):
         rows = [tsa.mlab.psd(x, NFFT=64, Fs=Fs, detrend=tsa.mlab.detrend_none, window=tsa.mlab.window_hanning, noverlap=32) for x in np.atleast_2d(d)]
         chk('SpectralAnalyzer', 'psd/shared-method-dict', (f, p), (rows[0][1], np.array([r[0].squeeze() for r in rows]).squeeze()), 'value')
     attempt('SpectralAnalyzer', 'shared-method-dict', shared_method)
+    # OPTIONAL ARGUMENTS of the analyzers at non-default values (bandwidth in Hz, adaptive weighting, bias correction, wavelet
+    # grids, pass-bands of the sparse / seed coherence, phase unwrapping): against the direct algorithm call where one
+    # exists, else against the same analyzer on the same samples expressed in seconds starting at 0
+    bw = 0.09 * Fs
+
+    def mt_opts():
+        S3 = A.SpectralAnalyzer(T, BW=bw, adaptive=True, low_bias=True)
+        f, p = S3.spectrum_multi_taper
+        rows = [tsa.multi_taper_psd(x, Fs=Fs, BW=bw, adaptive=True, low_bias=True) for x in np.atleast_2d(d)]
+        chk('SpectralAnalyzer', 'spectrum_multi_taper/options', (f, p), (rows[0][0], np.array([r[1] for r in rows]).reshape(np.asarray(p).shape)), 'value')
+    attempt('SpectralAnalyzer', 'spectrum_multi_taper/options', mt_opts)
+
+    def unit_indep(name, ctor, getters):
+        a1, a2 = ctor(T), ctor(Tref)
+        for g in getters:
+            v1, v2 = getattr(a1, g), getattr(a2, g)
+            if isinstance(v1, nt().TimeSeries):
+                v1, v2 = np.asarray(v1.data), np.asarray(v2.data)
+            chk(name, g + '/options', v1, v2, 'value')
+            if g == 'frequencies':
+                in_hz(name, g + '/options', v1)
+    if d.ndim == 1:
+        attempt('MorletWaveletAnalyzer', 'options', lambda: unit_indep(
+            'MorletWaveletAnalyzer', lambda X: A.MorletWaveletAnalyzer(X, f_min=0.1 * Fs, f_max=0.4 * Fs, nfreqs=4, sd_rel=0.3, log_spacing=True), ['analytic', 'amplitude']))
+        attempt('MorletWaveletAnalyzer', 'options-log', lambda: unit_indep(
+            'MorletWaveletAnalyzer', lambda X: A.MorletWaveletAnalyzer(X, freqs=[0.2 * Fs, 0.3 * Fs], sd=np.array([0.0517 * Fs, 0.0613 * Fs])), ['analytic', 'phase']))
+        # (log_morlet=True is not exercised: wlogmorlet(normed='area') divides by the sum of a zero-mean wavelet, i.e. by
+        #  rounding noise -- the result changes by 50 % with the last bit of Fs; observed, an algorithm-layer matter)
+    if d.ndim == 2:
+        def snr_opts():
+            Z = A.SNRAnalyzer(T, bandwidth=bw, adaptive=True, low_bias=True)
+            _, p, _ = tsa.multi_taper_psd(d.mean(0), Fs=Fs, BW=bw, adaptive=True, low_bias=True)
+            chk('SNRAnalyzer', 'mt_signal_psd/options', Z.mt_signal_psd, p, 'value')
+        attempt('SNRAnalyzer', 'mt/options', snr_opts)
+        wm = {'this_method': 'welch', 'NFFT': 32, 'n_overlap': 16}
+        attempt('MTCoherenceAnalyzer', 'options', lambda: unit_indep(
+            'MTCoherenceAnalyzer', lambda X: A.MTCoherenceAnalyzer(X, bandwidth=bw, alpha=0.1, adaptive=False), ['frequencies', 'coherence']))
+        attempt('CoherenceAnalyzer', 'options', lambda: unit_indep(
+            'CoherenceAnalyzer', lambda X: A.CoherenceAnalyzer(X, method=dict(wm), unwrap_phases=True), ['frequencies', 'phase', 'delay']))
+        attempt('SparseCoherenceAnalyzer', 'options', lambda: unit_indep(
+            'SparseCoherenceAnalyzer', lambda X: A.SparseCoherenceAnalyzer(X, ij=[(0, 1), (1, 2)] if d.shape[0] > 2 else [(0, 1)], method=dict(wm), lb=0.1 * Fs, ub=0.4 * Fs,
+                                                                           prefer_speed_over_memory=False, scale_by_freq=False), ['frequencies', 'coherence']))
+
+        def seed_opts():
+            def ctor(X):
+                sd_ = nt().TimeSeries(np.asarray(X.data)[0], sampling_interval=X.sampling_interval, time_unit=X.time_unit, t0=X.t0)
+                return A.SeedCoherenceAnalyzer(sd_, X, method=dict(wm), lb=0.1 * Fs, ub=0.4 * Fs, prefer_speed_over_memory=False, scale_by_freq=False)
+            unit_indep('SeedCoherenceAnalyzer', ctor, ['frequencies', 'coherence'])
+        attempt('SeedCoherenceAnalyzer', 'options', seed_opts)
     if d.ndim == 2:
         Cn = A.CoherenceAnalyzer(T, method={'this_method': 'welch', 'NFFT': 32, 'n_overlap': 16})
 
@@ -1176,7 +1544,7 @@ def hist_analyzer(name, T, fs_new):
     if name == 'FilterAnalyzer':
         return A.FilterAnalyzer(T, lb=0.0537 * fs_new, ub=0.3071 * fs_new, filt_order=8)
     if name == 'EventRelatedAnalyzer':
-        return A.EventRelatedAnalyzer(T, events_for(T, {}), 5, offset=1)
+        return A.EventRelatedAnalyzer(T, events_for(T, {'ev_mode': 'rows-diff'}), 5, offset=1, correct_baseline=True)
     return getattr(A, name)(T)
 
 
@@ -1587,7 +1955,8 @@ def judge_voxels(c):
 
 
 JUDGES = {'fs': judge_fs, 'output': judge_output, 'concat': judge_concat, 'nifti': judge_nifti, 'mk': judge_ctor, 'mkT': judge_ctor, 'rate': judge_ctor,
-          'voxels': judge_voxels, 'readseq': judge_readseq, 'rt': judge_rt, 'nifti-options': judge_nifti_options}
+          'voxels': judge_voxels, 'readseq': judge_readseq, 'rt': judge_rt, 'nifti-options': judge_nifti_options, 'optseq': judge_optseq,
+          'era': judge_era}
 
 
 def oracle(rng, tier, seed, focus, cases=None):
@@ -1604,6 +1973,8 @@ def oracle(rng, tier, seed, focus, cases=None):
         iv = (BAD_IV[unit] + GOOD_IV[unit])[i // 3 % 5] if i < 15 else round(rng.uniform(0.01, 50.0), 3)
         nlen = SPEC_LENS[(i + seed) % len(SPEC_LENS)]
         spec = dict(unit=unit, iv=iv, t0=T0S[i % len(T0S)], shape=[3, nlen] if i % 4 else [nlen], seed=rng.randrange(10**6))
+        if i % 3 == 2:      # recordings stored as integers / single precision / big-endian (same stored samples on both sides)
+            spec['dtype'] = ['int16', 'float32', '>f8', 'int32'][(i // 3 + seed) % 4]
         fails += spectral_experiments(spec)
         k += 1
     npairs = nout = 0
